@@ -13,6 +13,10 @@ using M = hfsm2::MachineT<Cfg>;
 #ifdef NO_ORTHO   // second specialisation of RegistryT (ORTHO_COUNT == 0): 8 states, 3 composite forks
 using FSM = M::PeerRoot< S(A), M::Composite<S(B), S(B1), M::Resumable<S(R), S(R1), S(R2)>>, S(C) >;
 struct A : FSM::State {}; struct B : FSM::State {}; struct B1 : FSM::State {}; struct R : FSM::State {}; struct R1 : FSM::State {}; struct R2 : FSM::State {}; struct C : FSM::State {};
+#elif defined TWO_ORTHO   // general specialisation with two orthogonal forks (orthogonal inside orthogonal is a legal table): 10 states, 2 composite, 2 orthogonal
+using FSM = M::PeerRoot< S(A), M::Orthogonal<S(O), M::Orthogonal<S(O2), S(L1), S(L2)>, M::Composite<S(C), S(C1), S(C2)>>, S(B) >;
+struct A : FSM::State {}; struct O : FSM::State {}; struct O2 : FSM::State {}; struct L1 : FSM::State {}; struct L2 : FSM::State {};
+struct C : FSM::State {}; struct C1 : FSM::State {}; struct C2 : FSM::State {}; struct B : FSM::State {};
 #else             // general specialisation: 10 states, 3 composite forks, 1 orthogonal fork
 using FSM = M::PeerRoot< S(A), M::Composite<S(B), S(B1), S(B2)>, M::Orthogonal<S(O), S(O1), M::Resumable<S(R), S(R1), S(R2)>> >;
 struct A : FSM::State {}; struct B : FSM::State {}; struct B1 : FSM::State {}; struct B2 : FSM::State {};
